@@ -9,9 +9,15 @@ INT_VALUES = [1, 2, 3, 4, 5, 7, 9, -1, -2, -3, 10]
 FLOAT_VALUES = [0.5, 1.5, -2.5, 0.25]   # dyadic: exact in binary
 
 
+def _pool(default):
+    # with a non-zero default, 0 is an ordinary (non-default) value and must be generated
+    base = INT_VALUES if default == 0 else [0, 0] + INT_VALUES
+    return [v for v in base if v != default]
+
+
 def values(default=0, floats=False, p_default=0.2):
     """Leaf values; the default itself is drawn with weight ~p_default."""
-    pool = [v for v in INT_VALUES if v != default]
+    pool = _pool(default)
     if floats:
         pool = pool + [v for v in FLOAT_VALUES if v != default]
     nd = max(1, int(len(pool) * p_default / (1 - p_default)))
@@ -19,7 +25,7 @@ def values(default=0, floats=False, p_default=0.2):
 
 
 def nondefault_values(default=0, floats=False):
-    pool = [v for v in INT_VALUES if v != default]
+    pool = _pool(default)
     if floats:
         pool += [v for v in FLOAT_VALUES if v != default]
     return st.sampled_from(pool)
